@@ -580,7 +580,6 @@ func (t *Term) Brief() string {
 	return op
 }
 
-
 // singleFieldStore: the alloc is a struct local that is never stored as a whole (or only
 // zero-initialised) and whose field idx is stored exactly once; returns that value.
 func singleFieldStore(al *ssa.Alloc, idx int) ssa.Value {
